@@ -402,7 +402,75 @@ pub fn judge(cfg: &Cfg, log: &[Rec]) -> Report {
     rep
 }
 
+/// "Unbounded" spelled as a huge max_size: the cache must be constructible and behave like a cache.
+fn extreme_size(sseed: u64) -> Report {
+    let mut rng = Prng::new(sseed);
+    let max_size = *rng.pick(&[usize::MAX, usize::MAX / 2, usize::MAX - 1]);
+    let pol = *rng.pick(&[Pol::Lru, Pol::Lfu, Pol::Fifo]);
+    let shared = rng.chance(0.5);
+    let mut rep = Report::default();
+    let r = std::panic::catch_unwind(|| {
+        run_sim(sseed, |sim| {
+            let w = sim.w.clone();
+            let policy = match pol {
+                Pol::Lru => EvictionPolicy::Lru,
+                Pol::Lfu => EvictionPolicy::Lfu,
+                Pol::Fifo => EvictionPolicy::Fifo,
+            };
+            // keys 1, 1, 2, 1 one after the other: miss, hit, miss, hit
+            macro_rules! go {
+                ($layer:expr) => {{
+                    let svc = $layer.layer(w.probe(1));
+                    for (i, key) in [1u32, 1, 2, 1].iter().enumerate() {
+                        let req = Req::new(i as u64 + 1, *key, vec![Step { lat: Lat::Us(0), out: Out::Ok }]);
+                        let a = sim.actor(req.id, crate::actors::caller_linger(w.clone(), svc.clone(), req, false, crate::actors::Linger::No, map_err));
+                        sim.start_at(i as u64 * 1000, a);
+                    }
+                }};
+            }
+            if shared {
+                let layer = SharedCacheLayer::<Req, u32, Resp>::builder().max_size(max_size).eviction_policy(policy).key_extractor(|r: &Req| r.key).build();
+                go!(layer);
+            } else {
+                let layer = CacheLayer::<Req, u32>::builder().max_size(max_size).eviction_policy(policy).key_extractor(|r: &Req| r.key).build();
+                go!(layer);
+            }
+            sim.horizon = 1_000_000;
+        })
+    });
+    match r {
+        Err(_) => rep.violate(
+            format!("C10:{}:panic-at-extreme-config", pol_name(pol)),
+            format!("cache with max_size={max_size} (shared={shared}): {}", crate::sim::take_last_panic().unwrap_or_default()),
+        ),
+        Ok((w, _, ())) => {
+            let log = w.take_log();
+            let inner: Vec<u64> = log.iter().filter_map(|r| if let Ev::InnerEnter { req, .. } = &r.ev { Some(*req) } else { None }).collect();
+            if inner != vec![1, 3] {
+                rep.violate(format!("C10:{}:extreme-size-wrong-hits", pol_name(pol)), format!("cache with max_size={max_size}: requests for keys 1,1,2,1 caused inner calls for requests {inner:?}, expected [1, 3]"));
+            }
+            rep.log = log;
+        }
+    }
+    rep.nontrivial = true;
+    rep.sig = crate::prng::mix(max_size as u64, shared as u64 * 8 + pol as u64);
+    rep.count("extreme_size_scenarios", 1);
+    rep.case = json!({"max_size": max_size.to_string(), "policy": pol_name(pol), "shared": shared});
+    rep
+}
+
+fn pol_name(p: Pol) -> &'static str {
+    match p {
+        Pol::Lru => "lru",
+        Pol::Lfu => "lfu",
+        Pol::Fifo => "fifo",
+    }
+}
+
 pub fn scenario(sseed: u64, _tier: Tier) -> Report {
+    if sseed % 61 == 0 {
+        return extreme_size(sseed);
+    }
     let mut rng = Prng::new(sseed);
     let cfg = gen(&mut rng);
     let (w, stats) = run(&cfg, rng.next());
